@@ -46,6 +46,12 @@ pub enum Prog {
     AndThen { first: Box<Prog>, body: Box<Prog> },
     /// `context.stop()`: ends the handler and everything it interrupted, `on_stop` runs, the agent ends.
     Stop,
+    /// The inner handler behind a completion-transforming wrapper: 0 = `Some(h).discard()`, 1 = `h.map(|_| ())`,
+    /// 2 = `None.discard()` (the inner handler is built but never runs).
+    Wrap { kind: i32, inner: Box<Prog> },
+    /// `context.transform_entry(map, key, |_| value)`: `Some(v)` inserts or replaces (on_update), `None` removes
+    /// (on_remove if the key was present).
+    Transform { item: i32, key: i32, value: Option<i32> },
 }
 
 #[derive(Form, Debug, Clone, PartialEq, Eq)]
@@ -75,6 +81,11 @@ pub enum Ins {
     AndThen,
     #[form(tag = "stop")]
     Stop,
+    /// Followed by its sub-program.
+    #[form(tag = "wrap")]
+    Wrap { kind: i32 },
+    #[form(tag = "xf")]
+    Xf { item: i32, key: i32, value: i32, remove: bool },
 }
 
 /// What a peer sends to the `run` lane.
@@ -98,6 +109,7 @@ impl Prog {
         match self {
             Prog::Seq { items, .. } => 1 + items.iter().map(|p| p.nodes()).sum::<usize>(),
             Prog::AndThenGet { body, .. } | Prog::Suspend { body, .. } => 1 + body.nodes(),
+            Prog::Wrap { inner, .. } => 1 + inner.nodes(),
             Prog::AndThen { first, body } => 1 + first.nodes() + body.nodes(),
             _ => 1,
         }
@@ -107,6 +119,7 @@ impl Prog {
         match self {
             Prog::Seq { items, .. } => 1 + items.iter().map(|p| p.depth()).max().unwrap_or(0),
             Prog::AndThenGet { body, .. } | Prog::Suspend { body, .. } => 1 + body.depth(),
+            Prog::Wrap { inner, .. } => 1 + inner.depth(),
             Prog::AndThen { first, body } => 1 + first.depth().max(body.depth()),
             _ => 1,
         }
@@ -141,6 +154,11 @@ impl Prog {
                 body.flatten(out);
             }
             Prog::Stop => out.push(Ins::Stop),
+            Prog::Wrap { kind, inner } => {
+                out.push(Ins::Wrap { kind: *kind });
+                inner.flatten(out);
+            }
+            Prog::Transform { item, key, value } => out.push(Ins::Xf { item: *item, key: *key, value: value.unwrap_or(0), remove: value.is_none() }),
         }
     }
 
@@ -181,6 +199,8 @@ impl Prog {
                 Prog::AndThen { first, body }
             }
             Ins::Stop => Prog::Stop,
+            Ins::Wrap { kind } => Prog::Wrap { kind, inner: Box::new(Prog::parse(code, pos)?) },
+            Ins::Xf { item, key, value, remove } => Prog::Transform { item, key, value: if remove { None } else { Some(value) } },
         })
     }
 
@@ -204,6 +224,8 @@ impl Prog {
                 }
             }
             Prog::AndThenGet { body, .. } => body.suspends(out),
+            // A wrapped program that never runs (kind 2) suspends nothing, but it is harmless to know its bodies.
+            Prog::Wrap { inner, .. } => inner.suspends(out),
             Prog::AndThen { first, body } => {
                 first.suspends(out);
                 body.suspends(out);
@@ -267,6 +289,12 @@ impl Prog {
                     out.push(Prog::Suspend { id: *id, delay_ms: *delay_ms, after: false, body: body.clone() });
                 }
             }
+            Prog::Wrap { kind, inner } => {
+                out.push(inner.as_ref().clone());
+                for v in inner.variants() {
+                    out.push(Prog::Wrap { kind: *kind, inner: Box::new(v) });
+                }
+            }
             Prog::AndThen { first, body } => {
                 out.push(first.as_ref().clone());
                 out.push(body.as_ref().clone());
@@ -287,6 +315,7 @@ impl Prog {
         match self {
             Prog::Stop => true,
             Prog::Seq { items, .. } => items.iter().any(|p| p.contains_stop()),
+            Prog::Wrap { inner, .. } => inner.contains_stop(),
             Prog::AndThenGet { body, .. } | Prog::Suspend { body, .. } => body.contains_stop(),
             Prog::AndThen { first, body } => first.contains_stop() || body.contains_stop(),
             _ => false,
@@ -345,10 +374,12 @@ fn gen_leaf(rng: &mut Rng, a: &mut Alloc, cfg: &GenCfg) -> Prog {
         let item = rng.range_i(cfg.min_mod as i64, N_ITEMS as i64 - 1) as i32;
         if is_map(item) {
             let key = rng.range_i(0, cfg.key_pool as i64 - 1) as i32;
-            match rng.below(10) {
+            match rng.below(12) {
                 0..=5 => Prog::Update { item, key, value: a.value() },
                 6..=8 => Prog::Remove { item, key },
-                _ => Prog::Clear { item },
+                9 => Prog::Clear { item },
+                10 => Prog::Transform { item, key, value: Some(a.value()) },
+                _ => Prog::Transform { item, key, value: if rng.chance(1, 2) { None } else { Some(a.value()) } },
             }
         } else {
             Prog::Set { item, value: a.value() }
@@ -396,7 +427,10 @@ fn gen_node(rng: &mut Rng, a: &mut Alloc, cfg: &GenCfg, depth: usize, budget: &m
         let item = rng.range_i(0, N_ITEMS as i64 - 1) as i32;
         let body = gen_node(rng, a, cfg, depth - 1, budget, false);
         Prog::AndThenGet { item, body: Box::new(body) }
-    } else if x < seq_chance + 27 {
+    } else if x < seq_chance + 22 {
+        let inner = gen_node(rng, a, cfg, depth - 1, budget, false);
+        Prog::Wrap { kind: *rng.pick(&[0i32, 0, 1, 1, 2]), inner: Box::new(inner) }
+    } else if x < seq_chance + 30 {
         let first = gen_node(rng, a, cfg, depth - 1, budget, false);
         let body = gen_node(rng, a, cfg, depth - 1, budget, false);
         Prog::AndThen { first: Box::new(first), body: Box::new(body) }
